@@ -356,3 +356,147 @@ def dupguard(ctx):
                           '(no PyCdlibInvalidInput raise under a test that reads %s and the new entry\'s %s): two entries with the same '
                           'identifier can coexist' % (q, cont, cont, namefield)))
     return obs
+
+
+def _kwargs_loop_key(ctx, fi, name):
+    """If `name` is the value variable of `for key, value in kwargs.items()` and is read under
+    `key == '<k>'`, return <k>."""
+    par = ctx.parents(fi)
+    loops = [n for n in ctx.own_nodes(fi) if isinstance(n, ast.For) and isinstance(n.target, ast.Tuple) and len(n.target.elts) == 2
+             and isinstance(n.target.elts[1], ast.Name) and n.target.elts[1].id == name.id
+             and isinstance(n.iter, ast.Call) and isinstance(n.iter.func, ast.Attribute) and n.iter.func.attr == 'items']
+    if not loops:
+        return None
+    cur = name
+    while cur is not None:
+        cur = par.get(id(cur))
+        if isinstance(cur, ast.If) and isinstance(cur.test, ast.Compare) and norm(cur.test.left) == 'key' and \
+                isinstance(cur.test.comparators[0], ast.Constant) and isinstance(cur.test.ops[0], ast.Eq):
+            return cur.test.comparators[0].value
+    return None
+
+
+@rule('SA-DUPGUARD.bypass')
+@props('C13')
+def dup_bypass(ctx):
+    """The duplicate guard of DirectoryRecord._add_child can be switched off with allow_duplicate.
+    Every call that may pass a true value must derive it from a comparison (the extent loop of
+    _add_fp: `offset > 0`), never from the constant True and never from a blanket retry: otherwise any
+    second file of the same name is merged into the first as a multi-extent continuation."""
+    obs = []
+    targets = {'dr.DirectoryRecord.add_child': 2, 'dr.DirectoryRecord.track_child': 2, 'dr.DirectoryRecord._add_child': 2}
+    seen = set()
+
+    def classify(fi, expr, depth):
+        """-> 'false' | 'cmp' | 'true' | 'unknown'"""
+        if depth > 12:
+            return 'unknown'
+        if expr is None:
+            return 'false'
+        if isinstance(expr, ast.Constant):
+            return 'true' if expr.value else 'false'
+        if isinstance(expr, ast.Compare):
+            return 'cmp'
+        if isinstance(expr, ast.BoolOp):
+            ks = [classify(fi, v, depth + 1) for v in expr.values]
+            if isinstance(expr.op, ast.And):
+                # a conjunction is at most as permissive as each operand: operands the analysis cannot
+                # classify can only restrict it further
+                if 'false' in ks:
+                    return 'false'
+                if 'cmp' in ks:
+                    return 'cmp'
+                known = [k for k in ks if k != 'unknown']
+                return 'true' if known and all(k == 'true' for k in known) else 'unknown'
+            if 'true' in ks:
+                return 'true'
+            return 'cmp' if all(k in ('cmp', 'false') for k in ks) else 'unknown'
+        if isinstance(expr, ast.UnaryOp) and isinstance(expr.op, ast.Not):
+            return 'unknown'
+        if isinstance(expr, ast.Call) and norm(expr.func) == 'bool' and expr.args:
+            return classify(fi, expr.args[0], depth + 1)
+        if isinstance(expr, ast.Name):
+            kw = _kwargs_loop_key(ctx, fi, expr)
+            if kw is not None:
+                # the value of keyword `kw` of **kwargs: what do the callers pass under that keyword?
+                ks = set()
+                for caller, c in ctx.callers().get(fi.qual, []):
+                    passed = [k.value for k in c.node.keywords if k.arg == kw]
+                    if passed:
+                        ks.add(classify(caller, passed[0], depth + 1))
+                    elif any(k.arg is None for k in c.node.keywords):
+                        # forwards its own **kwargs: fine only if that function refuses the keyword itself
+                        refuses = False
+                        for n in ctx.own_nodes(caller):
+                            if isinstance(n, ast.If) and norm(n.test) == "key == '%s'" % kw and any(isinstance(x, ast.Raise) for x in n.body):
+                                refuses = True
+                        ks.add('false' if refuses else 'unknown')
+                    else:
+                        ks.add('false')
+                if 'true' in ks:
+                    return 'true'
+                if 'unknown' in ks:
+                    return 'unknown'
+                return 'cmp' if 'cmp' in ks else 'false'
+            params = [p.lstrip('*') for p in fi.params]
+            sd = ctx.single_defs(fi)
+            if expr.id in sd:
+                return classify(fi, sd[expr.id], depth + 1)
+            # several assignments: all of them
+            vals = []
+            for n in ctx.own_nodes(fi):
+                if isinstance(n, ast.Assign):
+                    for t in n.targets:
+                        if isinstance(t, ast.Name) and t.id == expr.id:
+                            vals.append(n.value)
+            if vals:
+                ks = set(classify(fi, v, depth + 1) for v in vals)
+                if 'true' in ks:
+                    return 'true'
+                if ks <= {'false', 'cmp'}:
+                    return 'cmp' if 'cmp' in ks else 'false'
+                return 'unknown'
+            if expr.id in params:
+                # what do the callers pass?
+                idx = params.index(expr.id) - (1 if (fi.cls is not None and not fi.is_static) else 0)
+                ks = set()
+                for caller, c in ctx.callers().get(fi.qual, []):
+                    a = None
+                    if idx < len(c.node.args):
+                        a = c.node.args[idx]
+                    for kw in c.node.keywords:
+                        if kw.arg == expr.id:
+                            a = kw.value
+                    if a is None:
+                        # default
+                        d = fi.node.args.defaults
+                        pos = [x.arg for x in fi.node.args.args]
+                        dv = dict(zip(pos[len(pos) - len(d):], d)).get(expr.id)
+                        ks.add(classify(fi, dv, depth + 1) if dv is not None else 'unknown')
+                    else:
+                        ks.add(classify(caller, a, depth + 1))
+                if 'true' in ks:
+                    return 'true'
+                if 'unknown' in ks:
+                    return 'unknown'
+                return 'cmp' if 'cmp' in ks else 'false'
+        return 'unknown'
+
+    n = 0
+    for q, idx in targets.items():
+        ctx.func(q)
+        for caller, c in ctx.callers().get(q, []):
+            a = c.node.args[idx] if idx < len(c.node.args) else None
+            for kw in c.node.keywords:
+                if kw.arg == 'allow_duplicate':
+                    a = kw.value
+            n += 1
+            k = classify(caller, a, 0)
+            key = '%s|%s' % (caller.qual, norm(c.node)[:120])
+            ok = k in ('false', 'cmp')
+            obs.append(Ob('SA-DUPGUARD.bypass', key, ok, ctx.loc(caller, c.node),
+                          '' if ok else 'the duplicate-name guard is switched off %s: a second entry of the same name is accepted and chained '
+                          'to the first as a multi-extent continuation' % ('unconditionally (constant True)' if k == 'true' else 'by a value the analysis cannot tie to the extent loop')))
+    if n < 4:
+        raise AnalysisError('anchor-vanished: add_child call sites (%d)' % n)
+    return obs
